@@ -149,13 +149,31 @@ func propC17(r *kernel.Run) {
 	var hist []string
 	for ci := 0; ci < ncl; ci++ {
 		kind := Pick2(tp, "authenticated", "authenticated", "authenticated", "base-tls", "base-tls", "base-tls", "fetch-only", "garbage")
+		several := false
+		if ci == ncl-1 {
+			// last client: an authenticated client whose extras may match several registered sub-listeners. Which one
+			// receives it is decided by sync.Map.Range inside the library (not ours), so from here on the scheduler runs
+			// in frozen mode: no tape draws, no schedule hashing; the oracles are order-independent.
+			r.Sched.Frozen = true
+			kind, several = "authenticated", true
+		}
 		switch kind {
 		case "authenticated":
 			var extras []string
+			nreg := 0
 			for _, cand := range []string{"boundary-worker", "proto-b", "proto-c", "proto-unregistered", nodenet.AuthenticatedNonSpecificNextProto, nodenet.UnauthenticatedNextProto, "v1-nodee-", "h2"} {
-				if tp.Draw(4) == 0 {
+				if tp.Draw(4) == 0 || (several && tp.Draw(2) == 0) {
+					if subs[cand] != nil {
+						if nreg >= 1 && !several {
+							continue
+						}
+						nreg++
+					}
 					extras = append(extras, cand)
 				}
+			}
+			if nreg > 1 {
+				r.Count("probe.several_registered_names_offered", 1)
 			}
 			var opts []nodeenrollment.Option
 			if extras != nil {
@@ -206,7 +224,9 @@ func propC17(r *kernel.Run) {
 			if res.conn != nil {
 				res.conn.Close()
 			}
-			r.FP("authenticated", extras, names, where)
+			if !several {
+				r.FP("authenticated", extras, names, where)
+			}
 		case "base-tls":
 			offer := []string{}
 			for _, cand := range []string{"h2", "grpc-exp", "boundary-worker", nodenet.AuthenticatedNonSpecificNextProto, nodenet.UnauthenticatedNextProto,
